@@ -22,3 +22,5 @@ open IrVerif.Kernel
 #print axioms C01_node_sequence_refined
 #print axioms C01_node_sequence_history
 #print axioms C01_graph_calls_use_seq
+#print axioms C01_attr_frame
+#print axioms C01_sort_step
